@@ -5,8 +5,10 @@ import (
 	"fmt"
 	"strings"
 	"testing"
+	"time"
 
 	erpc "github.com/henrylee2cn/erpc/v6"
+	"github.com/henrylee2cn/erpc/v6/socket"
 
 	"simrt"
 	"verif/simnet"
@@ -45,7 +47,7 @@ func runC06(t *testing.T, seed uint64, m *Mask) *Report {
 	protos := world.StreamProtos()
 	proto := protos[r.Intn(len(protos))]
 	clientVictim := r.Chance(0.35)
-	kinds := []string{"valid", "valid", "bitflip", "bitflip", "lenfield", "lenfield", "xferlen", "trunc", "garbage", "oversize", "huge_announce", "dup"}
+	kinds := []string{"valid", "valid", "bitflip", "bitflip", "lenfield", "lenfield", "xferlen", "trunc", "garbage", "oversize", "huge_announce", "dup", "bigframe"}
 	n := 1 + r.Intn(6)
 	var steps []c06Step
 	for i := 0; i < n; i++ {
@@ -106,10 +108,18 @@ func runC06(t *testing.T, seed uint64, m *Mask) *Report {
 			}
 		})
 		// a template of valid frames for this protocol
+		bigData := 0
 		frame := func(i int) []byte {
 			ca, _ := e.Net.Pair()
 			tmp := world.NewRawPeer(ca, pf)
 			p := &world.Payload{Tag: fmt.Sprintf("atk%d", i), Data: world.GenString(e.Gen, e.Gen.Intn(80), "abcdef")}
+			if bigData > 0 {
+				p.Data = world.GenString(e.Gen, bigData, "abcdefghijklmnopqrstuvwxyzABCDEFGHIJKLMNOPQRSTUVWXYZ0123456789")
+			}
+			if e.Gen.Chance(0.5) {
+				// a slow handler: its reply is written while later bytes of the attack stream are still arriving
+				e.OpByTag[p.Tag] = &world.Op{Idx: 7000 + i, Tag: p.Tag, HSleep: time.Duration(1+e.Gen.Intn(6)) * time.Millisecond}
+			}
 			mtype := erpc.TypeCall
 			method := rt.Echo
 			if clientVictim {
@@ -121,13 +131,28 @@ func runC06(t *testing.T, seed uint64, m *Mask) *Report {
 				body, codec = p, 't'
 			}
 			var pipe []byte
-			if proto != "thrift-struct" && proto != "http" && e.Gen.Chance(0.3) {
+			if proto != "thrift-struct" && proto != "http" && bigData == 0 && e.Gen.Chance(0.3) {
 				pipe = []byte{world.FGzip5}
 			}
 			tmp.Send(mtype, int32(1+i), method, codec, body, nil, [][2]string{{"Mk", "v"}}, pipe)
 			b := append([]byte(nil), ca.Sent()...)
 			ca.Close()
 			return b
+		}
+		// well-formed frames far above the limit are built with the limit lifted (the attacker is not bound by
+		// the victim's configuration; the limit is process-wide in teleport)
+		bigFrames := map[int][]byte{}
+		for i, s := range steps {
+			if s.kind == "bigframe" && !m.opDropped(i) {
+				bigData = 5 * (limit + 4096)
+				if bigData > 200000 {
+					bigData = 200000
+				}
+				socket.SetMessageSizeLimit(1 << 30)
+				bigFrames[i] = frame(i)
+				socket.SetMessageSizeLimit(uint32(limit))
+				bigData = 0
+			}
 		}
 		// the attacked session
 		atk, vic := e.Net.Pair()
@@ -219,7 +244,11 @@ func runC06(t *testing.T, seed uint64, m *Mask) *Report {
 					write(f)
 					// payload that must not be consumed if the announced size was refused
 					if strings.HasPrefix(proto, "thrift") {
-						write(make([]byte, 2*limit+8192))
+						// in pieces, over some milliseconds: replies of slow handlers are written in between
+						for k := 0; k < 4; k++ {
+							write(make([]byte, limit+4096))
+							simrt.Sleep(time.Duration(500+e.Gen.Intn(2000)) * time.Microsecond)
+						}
 					} else {
 						write(make([]byte, 3*opt.ReaderSize))
 					}
@@ -258,6 +287,25 @@ func runC06(t *testing.T, seed uint64, m *Mask) *Report {
 						write(f)
 					}
 					write(make([]byte, limit*2))
+				case "bigframe":
+					// a well-formed frame several times the limit, streamed in pieces over some milliseconds while
+					// replies of earlier slow handlers are still being written on the same connection
+					big := bigFrames[i]
+					if consumedLimit < 0 && inSync && proto != "http" {
+						consumedLimit = int64(sent + 4 + opt.ReaderSize)
+						if strings.HasPrefix(proto, "thrift") {
+							consumedLimit += int64(limit + 2*4096 + slack)
+						}
+					}
+					for len(big) > 0 {
+						k := limit/2 + 1024
+						if k > len(big) {
+							k = len(big)
+						}
+						write(big[:k])
+						big = big[k:]
+						simrt.Sleep(time.Duration(200+e.Gen.Intn(1500)) * time.Microsecond)
+					}
 				case "oversize":
 					// one message that never ends: far more than the limit without a frame boundary
 					switch proto {
